@@ -117,7 +117,7 @@ def make_harness(tier):
         lines, classes = ["// header" if lang != "python" else "# header", ""], []
         for c in range(nclasses):
             name = ctx.pick(f"name{c}", ("Widget" + str(c), "DataManager" + str(c)))
-            small = quick and (c == 1 or nclasses == 2)
+            small = (c == 1) or (quick and nclasses == 2)
             n_pub = ctx.pick(f"npub{c}", npub if not small else (1, 3))
             n_priv = ctx.pick(f"npriv{c}", (0, 2) if not small else (2,))
             extras = ctx.pick(f"extras{c}", extras_opts if not small else extras_opts[-1:])
